@@ -298,6 +298,34 @@ def kf_all_not_read(w: Dict[str, Any]) -> bool:
     return bool(stars) and (w["scope"][0] in stars or any(mods[mi - 1]["name"] == first for mi in stars))
 
 
+def kf_reexport_superseded(w: Dict[str, Any]) -> bool:
+    """Known finding: an object re-exported into a package under a name that the package binds AGAIN further down (a second
+       re-export, a star import, a definition): the newcomer takes the name, the moved object is set aside as 'name 0' - and the
+       alias left in the module that defined it still reads 'pkg.name', which now designates the newcomer.  Matches only a name
+       that should denote an object whose re-export is followed, in the re-exporting module, by another binding of the same name,
+       and that resolved to the site of that later binding's object."""
+    if w.get("invariant") != "ResolvesRightOrNot" or not w.get("expected_site") or not w.get("got_site"):
+        return False
+    proj = w.get("origin", {}).get("project", {})
+    mods = proj.get("mods", [])
+    mi, pc = w["expected_site"]
+    if not (0 < mi <= len(mods)) or not (0 < pc <= len(mods[mi - 1]["ops"])):
+        return False
+    defined = mods[mi - 1]["ops"][pc - 1].get("n")
+    eq = ".".join(P.mod_path(proj, mi - 1))
+    for ri, R in enumerate(mods, 1):
+        if not R.get("hasAll"):
+            continue
+        ops = R["ops"]
+        for i, op in enumerate(ops):
+            if op["k"] == "from" and op.get("orig") == defined and op["as"] in R["all"] and P.resolve_import_target(proj, ri, op["lvl"], op["m"]) == eq:
+                later = [o for o in ops[i + 1:] if (o["k"] in ("class", "def", "var") and o.get("n") == op["as"]) or (o["k"] == "from" and o.get("as") == op["as"])
+                         or o["k"] == "star"]
+                if later:
+                    return True
+    return False
+
+
 def kf_reexporter_renamed(w: Dict[str, Any]) -> bool:
     """Known finding (C07 reexporter-renamed-by-its-package): an object re-exported by a module that its package re-exports under
        another name: the alias left in the defining module names a location that is outdated itself, so a name imported directly from
@@ -402,6 +430,7 @@ def run(ctx: Ctx) -> int:
     ctx.register_matcher("nested-class-sees-enclosing-class-names", kf_nested_class_scope)
     ctx.register_matcher("all-not-one-literal-read-as-absent", kf_all_not_read)
     ctx.register_matcher("reexported-by-a-renamed-module-unresolved", kf_reexporter_renamed)
+    ctx.register_matcher("reexported-then-superseded-alias-names-the-newcomer", kf_reexport_superseded)
     projs = c04_projects(ctx.quick, rng)
     counters: Dict[str, int] = collections.Counter()
     validated_names = 0
